@@ -45,6 +45,9 @@ pub struct SideSetup {
     pub psks: Vec<u8>,
     /// bit 0: call local_private_key twice, bit 1: remote_public_key twice, bit 2: prologue twice, bit 3: psk twice
     pub dup: u8,
+    /// use FallbackResolver(ring, default) instead of the default resolver
+    #[serde(default)]
+    pub ring: bool,
 }
 
 #[derive(Clone, Debug, Serialize, Deserialize, PartialEq)]
@@ -225,7 +228,7 @@ fn build_side(params: snow::params::NoiseParams, dh: Option<DhKind>, side: &Side
     let psk_vals: Vec<[u8; 32]> = side.psks.iter().map(|n| crate::engine::expand32(seed, 100 + *n as u64)).collect();
     let res = call("Builder configuration + build", || -> Result<HandshakeState, snow::Error> {
         let rng = crate::instr::SharedRng::seeded(seed ^ idx as u64, p256);
-        let resolver = crate::instr::VResolver::new(crate::instr::Backend::Default, Some(rng), None);
+        let resolver = crate::instr::VResolver::new(if side.ring { crate::instr::Backend::RingFirst } else { crate::instr::Backend::Default }, Some(rng), None);
         let mut b = snow::Builder::with_resolver(params, Box::new(resolver));
         if let Some(k) = &s {
             b = b.local_private_key(k)?;
@@ -570,8 +573,8 @@ pub fn execute(script: &Script) -> Result<Stats, Fail> {
 // proptest strategies
 
 pub const BUF_SIZES: &[u32] = &[
-    0, 1, 15, 16, 17, 31, 32, 33, 47, 48, 49, 63, 64, 65, 66, 80, 81, 82, 96, 97, 98, 112, 113, 129, 130, 146, 162, 200, 1000, 65535,
-    65536, 65551, 66000,
+    0, 1, 15, 16, 17, 31, 32, 33, 47, 48, 49, 63, 64, 65, 66, 80, 81, 82, 96, 97, 98, 112, 113, 129, 130, 146, 162, 200, 240, 241, 256, 257, 272, 1000,
+    1584, 1585, 1599, 1600, 1601, 1615, 1616, 4096, 8192, 8193, 65535, 65536, 65551, 66000,
 ];
 pub const NONCES: &[u64] = &[0, 1, 2, 0xFFFF_FFFF, 0x1_0000_0000, 1 << 63, u64::MAX - 2, u64::MAX - 1, u64::MAX];
 
@@ -579,10 +582,10 @@ fn who() -> impl Strategy<Value = Who> {
     prop_oneof![6 => Just(Who::Auto), 1 => Just(Who::A), 1 => Just(Who::B)]
 }
 fn buf() -> impl Strategy<Value = u32> {
-    prop_oneof![4 => Just(66000u32), 3 => (0usize..BUF_SIZES.len()).prop_map(|i| BUF_SIZES[i]), 1 => 0u32..400]
+    prop_oneof![4 => Just(66000u32), 3 => (0usize..BUF_SIZES.len()).prop_map(|i| BUF_SIZES[i]), 1 => 0u32..400, 1 => 400u32..9000]
 }
 fn plen() -> impl Strategy<Value = u32> {
-    prop_oneof![5 => 0u32..40, 2 => (0usize..BUF_SIZES.len()).prop_map(|i| BUF_SIZES[i]), 1 => 65000u32..66000]
+    prop_oneof![5 => 0u32..40, 2 => (0usize..BUF_SIZES.len()).prop_map(|i| BUF_SIZES[i]), 1 => 65000u32..66000, 2 => 40u32..9000]
 }
 fn nonce_sel() -> impl Strategy<Value = NonceSel> {
     prop_oneof![
@@ -626,6 +629,7 @@ fn side(initiator: bool) -> impl Strategy<Value = SideSetup> {
             prologue_len,
             psks: vec![],
             dup: 0,
+            ring: prologue_len % 3 == 0,
         }),
         1 => wild_side(initiator),
     ]
@@ -648,6 +652,7 @@ fn wild_side(initiator: bool) -> impl Strategy<Value = SideSetup> {
             prologue_len,
             psks: if psk_extra == 255 { vec![] } else { vec![psk_extra] },
             dup,
+            ring: prologue_len % 2 == 1,
         })
 }
 fn name_sel() -> impl Strategy<Value = NameSel> {
@@ -787,7 +792,7 @@ fn dec_side(b: &mut Bytes, initiator: bool) -> SideSetup {
     let x = b.u8();
     let psks = if x < 220 { vec![] } else { vec![b.u8()] };
     let dup = if b.u8() < 230 { 0 } else { b.u8() % 16 };
-    SideSetup { initiator: initiator != flip, s, rs, fixed_e: fe, prologue_len: pl, psks, dup }
+    SideSetup { initiator: initiator != flip, s, rs, fixed_e: fe, prologue_len: pl, psks, dup, ring: pl % 3 == 0 }
 }
 
 /// Decode an arbitrary byte string into a script (total: every input decodes).
